@@ -394,3 +394,33 @@ func deepCopy(v any) any {
 }
 
 func deepEqualJSON(a, b any) bool { return reflect.DeepEqual(a, b) }
+
+// orderOpen is the syntactic over-approximation of "the evaluation iterates
+// the members of an object with two or more members": member order is random
+// on every call, so sequence order and which error is met first are open.
+func orderOpen(root *Node, docs ...any) bool {
+	wild := root.Has(func(n *Node) bool { return n.K == KAnyKey || n.K == KAny })
+	if !wild {
+		return false
+	}
+	if root.Has(func(n *Node) bool { return n.K == KMethod && n.S == "keyvalue" }) {
+		return true
+	}
+	for _, d := range docs {
+		if v, ok := d.(exec.Vars); ok {
+			if len(v) >= 2 {
+				// $var.* cannot address the vars map itself; only values matter
+			}
+			for _, e := range v {
+				if maxMembers(e) >= 2 {
+					return true
+				}
+			}
+			continue
+		}
+		if maxMembers(d) >= 2 {
+			return true
+		}
+	}
+	return false
+}
